@@ -102,6 +102,43 @@ PLANS = {
         assumptions=COMMON_ASSUMPTIONS + ["operations are called inside their documented preconditions (out-of-precondition calls belong to C04)"],
         gates=dict(rel=dict(histories_crossing_line_boundary=10, max_len=2000)),
     ),
+    "C09": dict(
+        lanes=dict(quick=[("rel", N), ("nopf", N), ("dbg", N), ("asan", N), ("miri", N)],
+                   thorough=[("rel", N), ("nopf", N), ("dbg", N), ("asan", N), ("miri", N), ("mirirel", N)]),
+        rule="cases = (8 quad tree aliases x element types x sequences of 2047..300000 symbols with 3..9 levels: dense/holed alphabets, "
+             "Huffman profiles whose levels have different lengths (geometric, dominant, deep tie-free codes), layouts iid / frequent-leaf-after-rare / "
+             "rare-first / blocks / sorted) + raw prefetch calls with arbitrary positions (RSQVector256/512, RSWide, BitVector::prefetch_line, "
+             "utils::prefetch_read_NTA incl. an empty slice). Per case: the battery with rank_prefetch next to every rank (valid and invalid "
+             "arguments), then a dense sweep rank/rank_prefetch/model at every position of the last sampling period(s) of level 0 for every symbol. "
+             "Every case emits a digest of all answers; the orchestrator compares the digests of lane rel (feature prefetch on) and lane nopf "
+             "(feature off) case by case. ASan and Miri lanes run the same workload (no dereference of an estimate).",
+        assumptions=COMMON_ASSUMPTIONS + ["the estimator's internal ranges are deliberately not hooked; what is observed is answers, faults and digests"],
+        gates=dict(rel=dict(huff_pfs_distinct_long_level_lengths=3, pfs_sampling_periods=30, max_levels_prefetched=9, raw_prefetch_calls=500)),
+    ),
+    "C10": dict(
+        lanes=dict(quick=[("rel", N), ("dbg", N), ("asan", N), ("miri", N), ("mirirel", N)],
+                   thorough=[("rel", N), ("dbg", N), ("asan", N), ("miri", N), ("mirirel", N)]),
+        rule="the workloads of C01-C03 (all 10 tree types), C05 (RSQVector), C06 (RSNarrow/RSWide), C07 (DArray) and C08 (bit-vector histories), "
+             "restricted to valid arguments: after every checked call that returned Some(v) the unchecked twin (get_unchecked, rank_unchecked, "
+             "select_unchecked, rank_prefetch_unchecked, rank1/rank0_unchecked, select1/select0_unchecked, occs_unchecked, occs_smaller_unchecked, "
+             "get_bits_unchecked) is called with the same arguments and must return exactly v. An unchecked method is never called outside its "
+             "precondition. Lanes: optimised, debug-assertions+overflow-checks, ASan, Miri dev and release.",
+        assumptions=COMMON_ASSUMPTIONS,
+        class_per_lane=True,
+        gates=dict(any=dict()),
+        need_ops=["get_unchecked", "rank_unchecked", "select_unchecked", "rank_prefetch_unchecked", "rank1_unchecked", "rank0_unchecked",
+                  "select1_unchecked", "select0_unchecked", "occs_unchecked", "occs_smaller_unchecked", "get_bits_unchecked"],
+    ),
+    "C11": dict(
+        lanes=dict(quick=[("rel", N), ("dbg", N)],
+                   thorough=[("rel", N), ("dbg", N), ("asan", N), ("miri", N)]),
+        rule="cases = every serializable public type (10 tree aliases x 6 element types, RSQVector256/512, QVector, BitVector, BitVectorMut, RSNarrow, "
+             "RSWide, DArray<false/true>) x a rotating share of the input catalogues of C01-C08 (always incl. the empty input) + the Default value "
+             "of every type. Per case: bincode::serialize succeeds; deserialize succeeds; copy == original (both directions); re-serialization is "
+             "byte-identical; the full query battery on the original and on the copy against the model, digests equal; space_usage equal.",
+        assumptions=COMMON_ASSUMPTIONS,
+        gates=dict(rel=dict(max_serialized_bytes=100000)),
+    ),
     "C12": dict(
         lanes=dict(quick=[("rel", N), ("dbg", N), ("miri", N)],
                    thorough=[("rel", N), ("dbg", N), ("asan", N), ("miri", N)]),
@@ -146,7 +183,38 @@ def build_failure_is_violation(prop, out):
 
 
 def post_process(prop, tier, results, agg, rundir):
+    if prop == "C09":
+        return c09_feature_differential(results)
     return [], {}
+
+
+def c09_feature_differential(results):
+    """digest of every case in lane rel (feature prefetch on) vs lane nopf (feature off)"""
+    dig = {}
+    cases = {}
+    feat = {}
+    for (lane, s), r in results.items():
+        for st in r.stats:
+            feat.setdefault(lane, set()).add(bool(st.get("prefetch_feature")))
+        for idx, notes in r.notes.items():
+            for nt in notes:
+                if nt.get("key") == "digest":
+                    dig.setdefault(lane, {})[idx] = nt["v"]
+                    cases[idx] = r.cases.get(idx)
+    viols = []
+    compared = 0
+    if "rel" in dig and "nopf" in dig:
+        for idx, d in dig["rel"].items():
+            if idx in dig["nopf"]:
+                compared += 1
+                if dig["nopf"][idx] != d:
+                    c = cases.get(idx) or {}
+                    viols.append(dict(lane="rel+nopf", idx=idx, ty=c.get("ty", ""), op="feature_differential",
+                                      args="digest of all answers of the case", exp=f"equal digests (rel={d})",
+                                      got=f"nopf={dig['nopf'][idx]}", kind="digest_mismatch", tags=[], case=c, notes=[]))
+    cov = dict(feature_differential_cases_compared=compared,
+               prefetch_feature_by_lane={k: sorted(v) for k, v in feat.items()})
+    return viols, cov
 
 
 def check_gates(prop, tier, agg, lanes):
@@ -163,6 +231,11 @@ def check_gates(prop, tier, agg, lanes):
         report[k] = dict(need=need, have=have)
         if have < need:
             unmet.append(f"{k}: need >= {need}, have {have}")
+    for op in P.get("need_ops", []):
+        have = agg["per_op"].get(op, 0)
+        report["op:" + op] = dict(need=1, have=have)
+        if have < 1:
+            unmet.append(f"operation {op} was never exercised")
     if agg["evals"] == 0:
         unmet.append("no evaluations at all")
     return report, unmet
